@@ -495,6 +495,69 @@ def _endswith(call, names):
     return isinstance(call, ast.Call) and ast.unparse(call.func).split('.')[-1] in names
 
 
+ARRAY_PARAMS = ('wavefunction', 'shift', 'output_samples', 'samples', 'fpm', 'lyot', 'Q', 'ary', 'samples_out')
+_ALIASING_CALLS = ('asarray', 'asanyarray', 'ascontiguousarray', 'asfortranarray', 'atleast_1d', 'atleast_2d', 'squeeze',
+                   'ravel', 'reshape', 'view', 'transpose', 'real', 'imag', 'conj', 'conjugate')
+
+
+def no_inplace_on_args(fn, array_params=ARRAY_PARAMS):
+    """False iff `fn` applies an in-place operation (augmented assignment, item / slice assignment, `out=` keyword, a
+    mutating method) to one of its array-like parameters or to a name that may alias one (`x = np.asarray(param)`,
+    `x = param`, `x = param.T`, `x = param[...]`, `np.conj(param)` of a real array ...); such a function corrupts the array
+    its caller still holds, and its own later calls see the corrupted value"""
+    params = {a.arg for a in fn.args.args + fn.args.kwonlyargs if a.arg in array_params}
+    alias = set(params)
+
+    def may_alias(e):
+        if isinstance(e, ast.Name):
+            return e.id in alias
+        if isinstance(e, ast.Attribute):
+            return may_alias(e.value) and e.attr in ('T', 'real', 'imag', 'data', 'flat')
+        if isinstance(e, ast.Subscript):
+            return may_alias(e.value)
+        if isinstance(e, ast.Call):
+            name = ast.unparse(e.func).split('.')[-1]
+            if name in _ALIASING_CALLS:
+                if isinstance(e.func, ast.Attribute) and may_alias(e.func.value):
+                    return True
+                return bool(e.args) and may_alias(e.args[0])
+            if name == 'array' and e.args and may_alias(e.args[0]):
+                return any(k.arg == 'copy' and isinstance(k.value, ast.Constant) and k.value.value is False for k in e.keywords)
+        return False
+
+    ok = True
+    for st in ast.walk(fn):
+        pass
+    # statements in source order, so that re-binding a name to a fresh object clears its alias status
+    for st in sorted((n for n in ast.walk(fn) if isinstance(n, ast.stmt)), key=lambda n: (n.lineno, n.col_offset)):
+        if isinstance(st, ast.AugAssign):
+            tgt = st.target
+            base = tgt.value if isinstance(tgt, (ast.Subscript, ast.Attribute)) else tgt
+            if may_alias(base):
+                ok = False
+        elif isinstance(st, ast.Assign):
+            for t in st.targets:
+                if isinstance(t, ast.Subscript) and may_alias(t.value):
+                    ok = False
+            for t in st.targets:
+                if isinstance(t, ast.Name):
+                    if may_alias(st.value):
+                        alias.add(t.id)
+                    else:
+                        alias.discard(t.id)
+        elif isinstance(st, ast.Expr) and isinstance(st.value, ast.Call):
+            c = st.value
+            if any(k.arg == 'out' and may_alias(k.value) for k in c.keywords):
+                ok = False
+            if isinstance(c.func, ast.Attribute) and may_alias(c.func.value) and \
+                    c.func.attr in ('sort', 'fill', 'resize', 'itemset', 'put', 'partition', 'byteswap', 'append', 'extend', 'clear'):
+                ok = False
+    for c in (n for n in ast.walk(fn) if isinstance(n, ast.Call)):
+        if any(k.arg == 'out' and may_alias(k.value) for k in c.keywords):
+            ok = False
+    return ok
+
+
 def c03_items(g, ft, pr, repo):
     g.chunks.append(HEADER)
     co, _ = load(repo, 'prysm/coordinates.py')
@@ -637,6 +700,17 @@ def c03_items(g, ft, pr, repo):
     short = {'focus_fixed_sampling': 'ffs', 'unfocus_fixed_sampling': 'ufs'}
     wrapper('focus_fixed_sampling')
     wrapper('unfocus_fixed_sampling')
+
+    # ---- no in-place operation on a caller-owned array-like argument (field, shift, sample counts)
+    for nm, py in (('ffsNoInPlaceOnArguments', 'focus_fixed_sampling'), ('ufsNoInPlaceOnArguments', 'unfocus_fixed_sampling'),
+                   ('ffsWrapNoInPlaceOnArguments', 'Wavefront.focus_fixed_sampling'),
+                   ('ufsWrapNoInPlaceOnArguments', 'Wavefront.unfocus_fixed_sampling'),
+                   ('focusNoInPlaceOnArguments', 'focus'), ('unfocusNoInPlaceOnArguments', 'unfocus')):
+        g.fact(nm, f'prysm/propagation.py:{py}', (lambda q: (lambda: no_inplace_on_args(get_def(pr, q))))(py))
+    for nm, py in (('mdftNoInPlaceOnArguments', 'MatrixDFTExecutor.dft2'), ('mdftInvNoInPlaceOnArguments', 'MatrixDFTExecutor.idft2'),
+                   ('mdftKeyNoInPlaceOnArguments', 'MatrixDFTExecutor._key'),
+                   ('cztNoInPlaceOnArguments', 'ChirpZTransformExecutor.czt2'), ('cztInvNoInPlaceOnArguments', 'ChirpZTransformExecutor.iczt2')):
+        g.fact(nm, f'prysm/fttools.py:{py}', (lambda q: (lambda: no_inplace_on_args(get_def(ft, q))))(py))
 
     # ---- coordinates attached to a result: RichData.x/.y -> make_xy_grid(shape, dx) -> fftrange(n) * dx, axis 0 = y
     def grid():
